@@ -23,8 +23,12 @@ from .interp import ModelError, Unsupported, Instance
 
 
 class DType:
-    def __init__(self, kind):
+    """dtype token: `kind` (real | complex | quat | int) and, for a dtype read off an input array whose dtype the analysis
+    treats as unknown, the tag `src` of that array ("the same dtype as input <src>")."""
+
+    def __init__(self, kind, src=None):
         self.kind = kind
+        self.src = src
 
     def __eq__(self, o):
         k = dtype_kind(o)
@@ -61,6 +65,7 @@ class SymArr(np.ndarray):
         obj.kind = kind
         obj.sparse = sparse
         obj._fbase = None
+        obj._dt = None
         return obj
 
     def __array_finalize__(self, obj):
@@ -70,6 +75,9 @@ class SymArr(np.ndarray):
         self.sparse = getattr(obj, "sparse", False)
         # float view of a quaternion array (quaternion.as_float_array): (quaternion base array, root float array)
         self._fbase = getattr(obj, "_fbase", None)
+        # dtype provenance: None = the default wide dtype of its kind (float64 / complex128 / quaternion); a tag = "the dtype of the
+        # input array <tag>", which may be narrower than that of other inputs (integer planes, float32)
+        self._dt = getattr(obj, "_dt", None)
 
     def __array_wrap__(self, out, context=None, return_scalar=False):
         r = super().__array_wrap__(out, context, return_scalar) if hasattr(super(), "__array_wrap__") else out
@@ -90,6 +98,24 @@ def zero_of(kind):
 
 def one_of(kind):
     return {"real": Poly.const(1), "int": Poly.const(1), "complex": SC(1, 0), "quat": SQ(1, 0, 0, 0)}[kind]
+
+
+def dt_of(dtype):
+    """tag of a buffer ALLOCATED with a dtype read off input <src>: ('alloc', src).  (The inputs themselves, their views and copies
+    carry the plain tag src; stores into those are in-place updates of the caller's array and are not judged.)"""
+    return dt_like(dtype.src) if isinstance(dtype, DType) else None
+
+
+def dt_like(src):
+    if src is None:
+        return None
+    return src if isinstance(src, tuple) else ("alloc", src)
+
+
+def with_dt(arr, dt):
+    if isinstance(arr, SymArr):
+        arr._dt = dt
+    return arr
 
 
 def mk(shape, kind="real", fill=None, sparse=False):
@@ -120,7 +146,9 @@ def sym_real(name, shape):
     a = np.empty(shape, dtype=object)
     for idx in itertools.product(*[range(s) for s in shape]):
         a[idx] = Poly.atom((name,) + idx)
-    return SymArr(a, "real")
+    r = SymArr(a, "real")
+    r._dt = name
+    return r
 
 
 def sym_quat(name, shape):
@@ -246,7 +274,9 @@ class SymDomain(BaseDomain):
         self.np = self._make_np()
         self.quaternion = self._make_quaternion()
         self.sparse = self._make_sparse()
-        self.scipy_linalg = Namespace("scipy.linalg", qr=self.la_qr)
+        self.scipy_linalg = Namespace("scipy.linalg", qr=self.la_qr, solve_triangular=self.la_solve_triangular, solve=self.la_solve,
+                                      cholesky=self.la_cholesky_scipy, svd=self.la_svd, eigh=self.la_eigh, pinv=self.la_pinv,
+                                      norm=self.la_norm, LinAlgError=np.linalg.LinAlgError)
         self.events = []
         self.divisions = []
         self._cur_node = None
@@ -287,13 +317,14 @@ class SymDomain(BaseDomain):
             floating=TypeModel("floating", lambda v: isinstance(v, (float, Poly))),
             integer=TypeModel("integer", lambda v: isinstance(v, int) and not isinstance(v, bool)),
             inf=float("inf"), pi=3.141592653589793, newaxis=None,
-            zeros=d.np_zeros, empty=d.np_zeros, ones=lambda s, dtype=None: mk(s, dtype_kind(dtype), one_of(dtype_kind(dtype))),
+            zeros=d.np_zeros, empty=d.np_zeros, ones=lambda s, dtype=None: with_dt(mk(s, dtype_kind(dtype), one_of(dtype_kind(dtype))), dt_of(dtype)),
+            result_type=d.np_result_type, promote_types=d.np_result_type,
             eye=d.np_eye, identity=lambda n, dtype=None: d.np_eye(n, dtype=dtype),
             array=d.np_array, asarray=d.np_array, copy=lambda a: wrap(a).copy(),
-            zeros_like=lambda a, dtype=None: mk(a.shape, dtype_kind(dtype) if dtype is not None else wrap(a).kind),
-            empty_like=lambda a, dtype=None: mk(a.shape, dtype_kind(dtype) if dtype is not None else wrap(a).kind),
-            ones_like=lambda a: mk(a.shape, wrap(a).kind, one_of(wrap(a).kind)),
-            full_like=lambda a, v: mk(a.shape, wrap(a).kind, v),
+            zeros_like=lambda a, dtype=None: with_dt(mk(a.shape, dtype_kind(dtype) if dtype is not None else wrap(a).kind), dt_of(dtype) if dtype is not None else dt_like(getattr(a, "_dt", None))),
+            empty_like=lambda a, dtype=None: with_dt(mk(a.shape, dtype_kind(dtype) if dtype is not None else wrap(a).kind), dt_of(dtype) if dtype is not None else dt_like(getattr(a, "_dt", None))),
+            ones_like=lambda a: with_dt(mk(a.shape, wrap(a).kind, one_of(wrap(a).kind)), dt_like(getattr(a, "_dt", None))),
+            full_like=lambda a, v: with_dt(mk(a.shape, wrap(a).kind, v), dt_like(getattr(a, "_dt", None))),
             stack=d.np_stack, hstack=lambda xs: d._cat(np.hstack, xs), vstack=lambda xs: d._cat(np.vstack, xs),
             column_stack=lambda xs: d._cat(np.column_stack, xs),
             concatenate=lambda xs, axis=0: d._cat(lambda a: np.concatenate(a, axis=axis), xs),
@@ -371,7 +402,56 @@ class SymDomain(BaseDomain):
         kind = dtype_kind(dtype)
         if kind is None:
             raise Unsupported(f"dtype {dtype!r}")
-        return mk(shape, kind)
+        return with_dt(mk(shape, kind), dt_of(dtype))
+
+    def np_result_type(self, *xs):
+        """np.result_type / np.promote_types: the promoted dtype is at least as wide as every operand (src tag kept only
+        when all operands share it)"""
+        kinds, srcs = [], set()
+        for x in xs:
+            if isinstance(x, SymArr):
+                kinds.append(x.kind)
+                srcs.add(x._dt)
+            elif isinstance(x, DType):
+                kinds.append(x.kind)
+                srcs.add(x.src)
+            else:
+                k = dtype_kind(x) if not is_number(x) else kind_of_value(x)
+                kinds.append(k or "real")
+                srcs.add(None)
+        order = {"int": 0, "real": 1, "complex": 2, "quat": 3}
+        kind = max(kinds, key=lambda k: order.get(k, 1)) if kinds else "real"
+        return DType(kind, srcs.pop() if len(srcs) == 1 else None)
+
+    def note_store(self, base, value, interp, node):
+        """dtype provenance: a buffer whose dtype was taken from ONE input array (np.zeros(..., dtype=X.dtype), zeros_like(X),
+        X.astype(Y.dtype)) receives values that do not have that same dtype -> numpy casts them to the buffer's dtype
+        (truncation to integers / rounding to a narrower float when the inputs' dtypes differ)."""
+        bt = getattr(base, "_dt", None)
+        if not isinstance(bt, tuple) or getattr(base, "kind", None) == "quat":
+            return
+        if isinstance(value, SymArr):
+            vt = value._dt
+            if vt == bt or vt == bt[1]:
+                return
+        elif isinstance(value, (bool, int, np.integer)) or (isinstance(value, Poly) and value.is_const() and value.const_value().denominator == 1):
+            return
+        elif isinstance(value, (list, tuple)) and all(isinstance(x, (bool, int)) for x in value):
+            return
+        else:
+            vt = None
+        where = interp.where(node) if interp is not None and node is not None else "?"
+        self.events.append(("dtype-cast", where, bt, vt))
+        ctx = getattr(self, "ctx", None)
+        if ctx is not None:
+            fi = interp.call_stack[-1] if interp is not None and interp.call_stack else None
+            fn = getattr(fi, "func", None)
+            ctx.ob(f"{ctx.prop}.E3.dtype-source", f"store at {where}", False,
+                   f"values of {'the promoted default dtype' if vt is None else 'the dtype of input ' + repr(vt[1] if isinstance(vt, tuple) else vt)} are stored into a buffer "
+                   f"whose dtype was taken from input {bt[1]!r} alone: numpy casts them (fractional values are truncated when that input "
+                   f"is an integer array, rounded when it is a narrower float)",
+                   where=getattr(fn, "where", where), construct=f"buffer dtype taken from one input ({bt[1]})",
+                   loc=where)
 
     def np_eye(self, n, m=None, dtype=None, **k):
         kind = dtype_kind(dtype)
@@ -870,6 +950,18 @@ class SymDomain(BaseDomain):
         self.events.append(("solve", t, a, b))
         return labelled(f"solve{t}.X", (a.shape[1],) + tuple(b.shape[1:]))
 
+    def la_solve_triangular(self, a, b, **k):
+        a, b = wrap(a), wrap(b)
+        t = self.fresh("trsolve")
+        self.events.append(("solve_triangular", t, a, b, dict(k)))
+        return labelled(f"trsolve{t}.X", (a.shape[1],) + tuple(b.shape[1:]))
+
+    def la_cholesky_scipy(self, a, lower=False, **k):
+        a = wrap(a)
+        t = self.fresh("chol")
+        self.events.append(("cholesky", t, a))
+        return labelled(f"chol{t}.{'L' if lower else 'U'}", a.shape)
+
     def la_pinv(self, a, **k):
         a = wrap(a)
         t = self.fresh("pinv")
@@ -1016,7 +1108,13 @@ class SymDomain(BaseDomain):
             except ValueError as e:
                 raise ModelError(str(e))
             sparse = any(isinstance(x, SymArr) and x.sparse for x in (a, b))
-            return SymArr(r, combine_kind(a, b), sparse)
+            res = SymArr(r, combine_kind(a, b), sparse)
+            if op in (operator.add, operator.sub, operator.mul):
+                tags = {x._dt for x in (a, b) if isinstance(x, SymArr)}
+                others = [x for x in (a, b) if not isinstance(x, SymArr)]
+                if len(tags) == 1 and all(isinstance(x, (bool, int)) for x in others):
+                    res._dt = next(iter(tags))
+            return res
         if isinstance(a, float) and isinstance(b, (Poly, SQ, SC)) or isinstance(b, float) and isinstance(a, (Poly, SQ, SC)):
             pass
         return super().binop(interp, op, a, b, node)
@@ -1049,12 +1147,13 @@ class SymDomain(BaseDomain):
             raise ModelError(f"non-broadcastable output operand with shape {cur.shape} doesn't match the broadcast shape {new.shape}")
         if order[new.kind] > order[cur.kind]:
             raise ModelError(f"cannot cast in-place result from {new.kind} to {cur.kind}")
+        self.note_store(cur, new, interp, node)
         np.asarray(cur, dtype=object)[...] = np.asarray(new, dtype=object)
         return cur
 
     def unop(self, interp, op, v, node):
         if isinstance(v, SymArr):
-            return SymArr(op(np.asarray(v, dtype=object)), v.kind, v.sparse)
+            return with_dt(SymArr(op(np.asarray(v, dtype=object)), v.kind, v.sparse), v._dt)
         return op(v)
 
     def compare(self, interp, op, a, b, node):
@@ -1114,13 +1213,13 @@ class SymDomain(BaseDomain):
         if attr == "size":
             return int(a.size)
         if attr == "dtype":
-            return DType(a.kind)
+            return DType(a.kind, a._dt)
         if attr == "T":
-            return SymArr(np.asarray(a, dtype=object).T, a.kind, a.sparse)
+            return with_dt(SymArr(np.asarray(a, dtype=object).T, a.kind, a.sparse), a._dt)
         if attr in ("real", "imag") and not a.sparse:
             return self._part(a, attr)
         if attr == "copy":
-            return lambda *x, **k: SymArr(np.array(a, dtype=object, copy=True), a.kind, a.sparse)      # (fresh: no _fbase)
+            return lambda *x, **k: with_dt(SymArr(np.array(a, dtype=object, copy=True), a.kind, a.sparse), a._dt)      # (fresh: no _fbase)
         if attr == "reshape":
             def reshape(*shape, **k):
                 if len(shape) == 1 and isinstance(shape[0], (tuple, list)):
@@ -1144,7 +1243,17 @@ class SymDomain(BaseDomain):
                 return r
             return conj
         if attr == "astype":
-            return lambda t, **k: self._astype(a, dtype_kind(t)) if dtype_kind(t) else a.copy()
+            def astype(t, **k):
+                r = self._astype(a, dtype_kind(t)) if dtype_kind(t) else a.copy()
+                src = dt_of(t)
+                if src is not None and isinstance(r, SymArr):
+                    probe = with_dt(mk((), r.kind), src)
+                    self.note_store(probe, a, interp, node)          # x.astype(y.dtype): a cast into the dtype of one input
+                    r = with_dt(r.copy() if r is a else r, src)
+                elif isinstance(r, SymArr) and isinstance(t, (TypeModel, str)):
+                    r = with_dt(r.copy() if r is a else r, None)
+                return r
+            return astype
         if attr == "sum":
             return lambda axis=None, **k: self.np_sum(a, axis=axis)
         if attr == "max":
@@ -1239,6 +1348,7 @@ class SymDomain(BaseDomain):
             idx = self._conv_index(idx)
             base = np.asarray(obj, dtype=object)
             if isinstance(v, SymArr):
+                self.note_store(obj, v, interp, node)      # (scalar stores carry no dtype provenance: not judged)
                 vv = np.asarray(v, dtype=object)
             elif isinstance(v, (list, tuple)):
                 vv = np.asarray(self.np_array(v), dtype=object)
